@@ -68,6 +68,16 @@ func (f *fakeRouter) send(m wamp.Message, d time.Duration) {
 	})
 }
 
+// reply answers a request; a hostile router sometimes answers twice, back to back.
+func (f *fakeRouter) reply(m wamp.Message, d time.Duration) {
+	if f.hostile && f.g.Chance(1, 5) {
+		f.c.Fault("router_duplicate_reply")
+		f.sendSeq([]wamp.Message{m, m}, d)
+		return
+	}
+	f.send(m, d)
+}
+
 // sendSeq delivers the messages in order, the first after d, through one goroutine.
 func (f *fakeRouter) sendSeq(ms []wamp.Message, d time.Duration) {
 	simrt.Go("op:replyseq", func() {
@@ -140,21 +150,21 @@ func (f *fakeRouter) serve() {
 			id := f.id()
 			f.subs[id] = string(x.Topic)
 			f.known = append(f.known, id, x.Request)
-			f.send(&wamp.Subscribed{Request: x.Request, Subscription: id}, f.replyDelay(x.Request))
+			f.reply(&wamp.Subscribed{Request: x.Request, Subscription: id}, f.replyDelay(x.Request))
 		case *wamp.Unsubscribe:
 			delete(f.subs, x.Subscription)
-			f.send(&wamp.Unsubscribed{Request: x.Request}, f.replyDelay(x.Request))
+			f.reply(&wamp.Unsubscribed{Request: x.Request}, f.replyDelay(x.Request))
 		case *wamp.Register:
 			id := f.id()
 			f.regs[id] = string(x.Procedure)
 			f.known = append(f.known, id, x.Request)
-			f.send(&wamp.Registered{Request: x.Request, Registration: id}, f.replyDelay(x.Request))
+			f.reply(&wamp.Registered{Request: x.Request, Registration: id}, f.replyDelay(x.Request))
 		case *wamp.Unregister:
 			delete(f.regs, x.Registration)
-			f.send(&wamp.Unregistered{Request: x.Request}, f.replyDelay(x.Request))
+			f.reply(&wamp.Unregistered{Request: x.Request}, f.replyDelay(x.Request))
 		case *wamp.Publish:
 			if ack, _ := x.Options["acknowledge"].(bool); ack {
-				f.send(&wamp.Published{Request: x.Request, Publication: f.id()}, f.replyDelay(x.Request))
+				f.reply(&wamp.Published{Request: x.Request, Publication: f.id()}, f.replyDelay(x.Request))
 			}
 		case *wamp.Call:
 			f.known = append(f.known, x.Request)
@@ -174,6 +184,10 @@ func (f *fakeRouter) serve() {
 				seq = append(seq, &wamp.Error{Type: wamp.CALL, Request: x.Request, Details: wamp.Dict{}, Error: "app.error.boom", Arguments: x.Arguments})
 			} else {
 				seq = append(seq, &wamp.Result{Request: x.Request, Details: wamp.Dict{}, Arguments: x.Arguments})
+			}
+			if f.hostile && f.g.Chance(1, 5) {
+				f.c.Fault("router_duplicate_reply")
+				seq = append(seq, seq[len(seq)-1]) // the final reply twice, back to back
 			}
 			f.sendSeq(seq, d)
 		case *wamp.Cancel:
